@@ -97,14 +97,14 @@ pub fn list_slice<T: Clone>(list: &[T], start: Option<i64>, end: Option<i64>, st
             if let Some(v) = list.get(i as usize) {
                 out.push(v.clone());
             }
-            i += step;
+            i = i.saturating_add(step);
         }
     } else {
         while i > end_idx {
             if let Some(v) = list.get(i as usize) {
                 out.push(v.clone());
             }
-            i += step; // negative
+            i = i.saturating_add(step); // negative
         }
     }
 
